@@ -115,6 +115,8 @@ class C14System:
 
     def ops(self, st):
         ops = []
+        if getattr(st, "dead", False):
+            return ops          # the caller has closed its streams and torn the builder down: end of this history
         for n in self.names:
             ops.append(["add_writer", [n]])
             ops.append(["remove_writer", [n]])
@@ -122,6 +124,8 @@ class C14System:
             for e in EMITS:
                 ops.append(["emit", [e]])
         ops += [["flush"], ["teardown"], ["teardown", [False]]]
+        if any(st.kind[n] == "stream" and n != "cfgmem" for n in self.names):
+            ops.append(["teardown", ["caller-closed-its-streams"]])
         if self.formatters:
             # the formatter object is replaced on the live builder (other line ending), or re-configured in place
             ops += [["set_formatter", ["\\r\\n"]], ["set_formatter", ["\\n"]], ["set_line_endings", ["\\r\\n"]], ["set_line_endings", ["\\n"]],
@@ -174,6 +178,14 @@ class C14System:
                   fn(g)
               elif name == "flush":
                   g.flush()
+              elif name == "teardown" and len(op) > 1 and op[1] == ["caller-closed-its-streams"]:
+                  # the usual `with open(...) as f:` block has ended: the caller's own streams are closed (which also pushes
+                  # what they received to disk), then the builder is torn down
+                  st.caller_closed = [n for n in self.names if st.kind[n] == "stream" and n != "cfgmem"]
+                  for n in st.caller_closed:
+                      st.stream[n].close()
+                  st.dead = True
+                  g.teardown()
               elif name == "teardown":
                   if len(op) > 1:
                       g.teardown(*op[1])
@@ -230,7 +242,11 @@ class C14System:
                     st.open[n] = False
                 elif st.kind[n] == "stream":
                     f = st.stream[n]
-                    if f.closed:
+                    if n in getattr(st, "caller_closed", ()):
+                        disk = self.read(st, n)
+                        if disk != st.log[n]:
+                            P.append(("stream-content-after-teardown", f"after teardown: {n} (closed by its owner before) received {disk!r}, expected {st.log[n]!r}"))
+                    elif f.closed:
                         P.append(("caller-stream-closed", f"teardown closed the caller-owned stream {n}"))
                     else:
                         f.flush()        # the harness owns the object: push what it has received to disk
@@ -269,14 +285,14 @@ class C14System:
             i += 1
 
     def canon(self, st):
-        return (tuple(st.registry), self.real_registry(st), tuple((n, st.open[n], digest(st.log[n]), digest(st.session[n])) for n in self.names), st.emits, st.end, getattr(st, "numbering", None))
+        return (tuple(st.registry), self.real_registry(st), tuple((n, st.open[n], digest(st.log[n]), digest(st.session[n])) for n in self.names), st.emits, st.end, getattr(st, "numbering", None), getattr(st, "dead", False))
 
     def outcome(self, st):
         return (tuple(st.registry), st.emits, type(st.last_exc).__name__ if st.last_exc else None)
 
 
 RULE = ("BFS over histories of add_writer/remove_writer (path-based FileWriters, FileWriter over an open UTF-8 text file and over an open binary file, custom recording writers), "
-        "three emitting calls incl. a non-ASCII comment (at most N emits per history), flush, teardown() and teardown(False) on the real GCodeBuilder, for both line endings, plus a configuration where the formatter is replaced (set_formatter) or its line ending re-configured between writes; reference model = ordered duplicate-free "
+        "three emitting calls incl. a non-ASCII comment (at most N emits per history), flush, teardown(), teardown(False) and a teardown after the caller closed its own streams (end of history) on the real GCodeBuilder, for both line endings, plus a configuration where the formatter is replaced (set_formatter) or its line ending re-configured between writes; reference model = ordered duplicate-free "
         "registry + per-writer byte log + per-path session log (a path-based writer truncates when it re-opens after a disconnect); recorders checked after every call, file contents "
         "after flush and teardown, teardown must disconnect and forget every writer and leave caller-owned streams open; distinct = distinct (registry, per-writer logs, sessions)")
 ASSUMPTIONS = ["not demanded: that teardown pushes a caller-owned buffered file to disk (the harness flushes the object it owns before reading it back)",
